@@ -19,3 +19,10 @@ func Event(_ string, _ ...string) {}
 
 // Order lets a simulator decide an otherwise arbitrary iteration order.
 func Order(_ string, _ []string) []string { return nil }
+
+// Acquire and Release bracket a lock held by the calling goroutine. They are
+// only called from code instrumented by the simulation harness.
+func Acquire() {}
+
+// Release is the counterpart of Acquire.
+func Release(_ string) {}
